@@ -28,6 +28,7 @@ func init() {
 			ruleDrainBounds(r, "O7")
 			ruleAlwaysCancels(r, "O8")
 			ruleC10O11(r)
+			ruleC10O14(r)
 			le10 := newLockEngine(r.P)
 			ruleW4(r, le10, "O13")
 			ruleLockPairingFor(r, le10, "O12", "no lock outlives its function in the connection layer: every function of iscp.Conn that takes a lock releases it on every path (a leaked table mutex makes calls after Close block instead of failing)", func(fn *ssa.Function) bool {
@@ -636,4 +637,40 @@ func (p *Prog) reachesStoreTo(fn *ssa.Function, f *types.Var, depth int) bool {
 		})
 	})
 	return found
+}
+
+// ruleC10O14: Conn.Close closes the streams it knows about. A stream that is opened without being entered into the
+// connection's set (or a closed one that is never taken out) is not closed with the connection, or is closed twice.
+func ruleC10O14(r *Run) {
+	r.Begin("O14", "the connection knows its streams: the sets Conn.upstreams and Conn.downstreams each have an insert site and a delete site outside constructors, and are ranged over by the connection's close path", 2)
+	p := r.P
+	for _, fname := range []string{"upstreams", "downstreams"} {
+		fk := "/iscp.Conn." + fname
+		if r.field("/iscp", "Conn", fname) == nil {
+			continue
+		}
+		ins, del, rng := 0, 0, 0
+		for _, fn := range p.Funcs {
+			if fnPkgPath(fn) != modPath+"/iscp" {
+				continue
+			}
+			for _, a := range collectAccesses(fn) {
+				if fieldKey(a.Owner, a.Field) != fk {
+					continue
+				}
+				switch a.What {
+				case "mapupdate":
+					ins++
+				case "delete":
+					del++
+				}
+			}
+			allInstrs(fn, func(x ssa.Instruction) {
+				if rg, ok := x.(*ssa.Range); ok && hasLeaf(p.Leaves(rg.X, provOpts{}), "field:"+fk) {
+					rng++
+				}
+			})
+		}
+		r.Check("set "+fk, ins > 0 && del > 0 && rng > 0, "", "iscp", fmt.Sprintf("%d insert site(s), %d delete site(s), %d range(s) over %s", ins, del, rng, fk))
+	}
 }
